@@ -7,6 +7,7 @@ sys.dont_write_bytecode = True
 from concurrent.futures import ProcessPoolExecutor
 from selftest import runner
 SRC = sys.argv[1] if len(sys.argv) > 1 else '/tmp/benign'
+TAG = sys.argv[2] if len(sys.argv) > 2 else ''
 PROPS = ['C%02d' % i for i in range(1, 21)]
 
 def work(job):
@@ -23,7 +24,7 @@ def work(job):
         shutil.rmtree(tmp, ignore_errors=True)
     row = {}
     for p in PROPS:
-        n, kind, outcome, info = runner._run_variant((p, '/repo', 'B', f'{pid}-{k}', patch))
+        n, kind, outcome, info = runner._run_variant((p, '/repo', 'B', f'{pid}-{TAG}{k}', patch))
         if outcome != 'silent': row[p] = (outcome, info)
     return pid, k, 'ok', row
 
@@ -34,13 +35,13 @@ if __name__ == '__main__':
         if not os.path.isdir(d): continue
         for k in sorted(os.listdir(d)):
             sd = os.path.join(d, k)
-            if os.path.isfile(os.path.join(sd, 'patch.diff')) and not os.path.isdir(f'/verif/benign/{pid}-{k}'):
+            if os.path.isfile(os.path.join(sd, 'patch.diff')) and not os.path.isdir(f'/verif/benign/{pid}-{TAG}{k}'):
                 jobs.append((pid, k, sd))
     with ProcessPoolExecutor(16) as ex:
         for pid, k, status, row in ex.map(work, jobs):
             print(pid, k, status, json.dumps(row)[:600], flush=True)
             if status == 'ok':
-                dest = f'/verif/benign/{pid}-{k}'
+                dest = f'/verif/benign/{pid}-{TAG}{k}'
                 os.makedirs(dest, exist_ok=True)
                 shutil.copy(os.path.join(SRC, pid, k, 'patch.diff'), dest)
                 try: meta = json.load(open(os.path.join(SRC, pid, k, 'meta.json')))
